@@ -271,6 +271,8 @@ class GraphInitializers(collections.UserDict[str, "_core.Value"]):
         if kwargs:
             data.update(kwargs)
         self._graph = graph
+        for key, value in data.items():
+            self._check_item(key, value)
         for value in data.values():
             self._set_graph(value)
 
